@@ -15,6 +15,7 @@ package xbus
 //@   elem_invariant recvQ: elem != nil && !shared(elem)
 //@
 //@ func (*socket).SendMsg
+//@   accepts_shared m
 //@   loop 1 complete
 //@   at if#3.then assert p.p.ID() == ite(len(old(m.Header)) == 4, be32(old(m.Header)), 0)
 //@   at call:Clone#1 assert p.p.ID() != ite(len(old(m.Header)) == 4, be32(old(m.Header)), 0)
@@ -63,3 +64,6 @@ package xbus
 //@   ghost was = s.closed at call:Lock#1
 //@   ensures was ==> result == protocol.ErrClosed
 //@   ensures !was ==> isnil(result) && s.closed && closed(s.closeQ)
+//@
+//@ func (*socket).AddPipe
+//@   before call:SetPrivate#1 assert cap(p.sendQ) == s.sendQLen
